@@ -1042,7 +1042,7 @@ def stall_probe(ctx, quick, prop):
                           "delay": 0, "watchdog": 40})
     # the call is aborted while a completion callback is inside the input iterator, which then raises (fix F48)
     for ra in ("generator", "generator_unordered"):
-        for how in ("close", "taskfail"):
+        for how in ("close", "taskfail", "late_item"):
             cases.append({"kind": "late_iter", "how": how, "backend": "cf", "n_jobs": 2, "pre": 2, "return_as": ra, "N": 4,
                           "tfail": None, "ifail": None, "reuse": False, "at": None, "role": "cb", "delay": 0, "watchdog": 30})
     # a backend of the documented base-class kind whose completion callback fires INSIDE submit(): results, failures and
@@ -1084,6 +1084,9 @@ def stall_probe(ctx, quick, prop):
             tags = {"C04"}
             if r.get("hang"):
                 what = "the call hangs"
+            if r.get("ran_after_close"):
+                what = "a task taken from the input after the generator had been closed was dispatched and executed"
+                tags |= {"C16", "C09"}
             for k, call in enumerate(r.get("calls", [])):
                 tf = c["tfail"] if k == 0 else None
                 jf = c["ifail"] if k == 0 else None
